@@ -15,7 +15,16 @@
 #ifndef RESIZE_TO
 #define RESIZE_TO 1
 #endif
-var header_init(var head, var type, int alloc) { struct Header* self = head; self->type = type; self->alloc = (var)(intptr_t)alloc; self->magic = (var)CELLO_MAGIC_NUM; return ((char*)self) + sizeof(struct Header); }
+var header_init(var head, var type, int alloc) {      /* per its K1 contract (C19.header_init.k1), in every build configuration */
+  struct Header* self = head; self->type = type;
+#if CELLO_ALLOC_CHECK == 1
+  self->alloc = (var)(intptr_t)alloc;
+#endif
+#if CELLO_MAGIC_CHECK == 1
+  self->magic = (var)CELLO_MAGIC_NUM;
+#endif
+  return ((char*)self) + sizeof(struct Header);
+}
 struct Header* header(var self) { return HDR(self); }
 static OBJ(String, SA); static OBJ(String, SB); static struct String *sa, *sb;
 static char in_a[LA + 1], in_b[LB + 1]; static char bbuf[LB + 1]; static char stackbuf[LA + 8];
